@@ -120,7 +120,7 @@ def install(ctx):
         case = _case("gq", x, v, False)
         if exc is not None:
             ctx.violate("get_quantiles-raised", case, observed=repr(exc), tags={"caller": caller})
-        elif result is None or len(result) != 2 or float(result[0]) != ge or float(result[1]) != le:
+        elif result is None or len(result) != 2 or any(r is None or isinstance(r, str) for r in result) or float(result[0]) != ge or float(result[1]) != le:
             ctx.violate("get_quantiles-wrong", case, observed=result, expected=(ge, le), tags={"fn": "gq", "tie": bool(eq > 0),
                                                                                                "caller": caller})
     monitor.wrap(ctx, stats, "get_quantiles", post_gq, mon_name="stats.get_quantiles")
@@ -227,6 +227,17 @@ def run(ctx):
                         if nt:
                             ctx.nt(digest((aname, ms, oi, qi)))
                     if oi == 0:
+                        # history: one preallocated sample buffer is queried, refilled in place with another multiset, and queried again
+                        # (the way a simulation loop reuses its array); the contracts judge every answer against the buffer's current content
+                        buf = numpy.empty(size, dtype=xa.dtype)
+                        for fill in (xv, [alpha[(ms[i] + 1 + i % 2) % 6] for i in range(size)], xv[::-1]):
+                            buf[:] = fill
+                            for qq in (queries[0], queries[6], queries[3]):
+                                qq = qq if aname not in ("int", "uint") else (int(qq) if float(qq) == int(qq) else qq)
+                                ctx.call(stats.greater_equal_ecdf, buf, qq)
+                                ctx.call(stats.less_equal_ecdf, buf, qq)
+                                ctx.call(stats.get_quantiles, buf, qq)
+                            ctx.mon("history:buffer-refilled-in-place", 1)
                         sample_identities(ctx, xa, queries, aname)
                         ctx.call(stats.binned_ecdf, xa, numpy.array(sorted(queries)))
                         ctx.count(1)
